@@ -163,10 +163,16 @@ def write_replay(pid, tier, seed, n, obj):
     return rel
 
 
-def run_suites(spec, tier, seed, log):
+def run_suites(spec, tier, seed, log, extended=False):
     results = []
     for name in spec['suites']:
         mod = importlib.import_module(f'harness.suites.{name}')
+        if extended and not getattr(mod, 'HONOURS_DEADLINE', False):
+            # the extended failing-input search: suites whose loops watch the time budget run with the
+            # thorough case counts; the others run their quick tier again with the next three seeds
+            for k in (0, 1, 2):
+                results += run_suites(dict(spec, suites=[name]), 'quick', seed + k, log)
+            continue
         t0 = time.time()
         fn = getattr(mod, spec.get('entry', {}).get(name, 'run'))
         try:
@@ -286,7 +292,7 @@ def main():
         log('tie broken and no failing input yet: extended search (thorough budget, next seed, at most 6 minutes)')
         os.environ['VERIF_DEADLINE'] = str(time.time() + 360)
         try:
-            for m, r in run_suites(spec, 'thorough', seed + 1, log):
+            for m, r in run_suites(spec, 'thorough', seed + 1, log, extended=True):
                 violations += [(m, v) for v in r.violations if claimed(v, True)]
         except Exception:
             harness_errors.append(traceback.format_exc())
@@ -380,6 +386,11 @@ def main():
 
 
 if __name__ == '__main__':
+    # the real code iterates sets of bytes (touched sets ...): with a random string-hash seed two runs of
+    # the same VERIF_SEED can differ; pin it so that every run, and every replay, is reproducible
+    if os.environ.get('PYTHONHASHSEED') != '0':
+        os.environ['PYTHONHASHSEED'] = '0'
+        os.execv(sys.executable, [sys.executable] + sys.argv)
     try:
         main()
     except subprocess.TimeoutExpired:
